@@ -9,6 +9,8 @@
  * challenge from the bytes given by "rand" lines (0 when exhausted), which makes the challenge
  * a script input; it is still read back off the wire by the oracle in props/C05.py.
  *
+ * Script ops beyond the basic ones: "types a b c d" (security types of the four application handler objects),
+ * "setfile s hex" (the password file of screen s is rewritten).
  * argv[1] = directory for password files. */
 #include "vsess.h"
 #include <signal.h>
@@ -155,6 +157,15 @@ static void run_case(char **lines, int nl) {
     if (!strcmp(tok[0], "screen") && nt >= 5) do_screen(tok, nt);
     else if (!strcmp(tok[0], "reg") && nt == 2) { int k = atoi(tok[1]); if (k >= 2 && k < 2 + NEXT) rfbRegisterSecurityHandler(&exth[k - 2]); obs(); }
     else if (!strcmp(tok[0], "unreg") && nt == 2) { int k = atoi(tok[1]); if (k >= 2 && k < 2 + NEXT) rfbUnregisterSecurityHandler(&exth[k - 2]); obs(); }
+    else if (!strcmp(tok[0], "types") && nt == 5) { int i; for (i = 0; i < NEXT; i++) exth[i].type = (uint8_t)atoi(tok[1 + i]); obs(); }
+    else if (!strcmp(tok[0], "setfile") && nt == 3) {
+      /* the password file of a screen is rewritten (rfbDefaultPasswordCheck reads it at every check) */
+      int s = atoi(tok[1]); unsigned char ct[64]; size_t cn = unhex(tok[2], ct, 64);
+      if (s >= 0 && s < nscreens && screens[s]->passwordCheck != rfbCheckPasswordByList && screens[s]->authPasswdData) {
+        FILE *f = fopen((char *)screens[s]->authPasswdData, "wb"); if (f) { fwrite(ct, 1, cn, f); fclose(f); }
+      }
+      obs();
+    }
     else if (!strcmp(tok[0], "rand") && nt == 2) { randn += unhex(tok[1], randq + randn, sizeof randq - randn); obs(); }
     else if (!strcmp(tok[0], "conn") && nt == 5) do_conn(atoi(tok[1]), atoi(tok[2]), atoi(tok[3]), tok[4]);
     else if (!strcmp(tok[0], "send") && nt == 4) do_send(atoi(tok[1]), atoi(tok[2]), tok[3]);
